@@ -378,6 +378,18 @@ def r_binext(ctx, prog, rule):
                             why = "bin header 0x%02X needs %d size byte(s) and sizes <= %d; found %d byte(s) for sizes up to %d" % (code[1], nb, allowed[1], nbytes, min(hi, 1 << 64))
                 ctx.ob(rule, "bin header: %s" % why.split(" for ")[0] if ok else "bin header path %d" % n, ok, fn.where, why)
             ctx.floor(rule, "bin header paths", n, 3)
+            # coverage: every payload size, the empty one included, reaches a store
+            los = []
+            for path in paths:
+                if any(e[0] == "store" and e[1] == "ptr" for e in path.events):
+                    for s_, r_ in path.pc.items():
+                        if s_.endswith(".size()"):
+                            los.append(max(r_[0], 0))
+            if los:
+                ctx.ob(rule, "bin: every payload size from 0 reaches a header path", min(los) == 0, fn.where,
+                       "smallest stored size 0" if min(los) == 0 else
+                       "no path stores a binary of %d byte(s) or fewer: an empty MsgPackBinary with a valid pointer is dropped "
+                       "and serialized as nil instead of C4 00" % (min(los) - 1))
         elif t0.endswith("MsgPackExtension"):
             paths = it.run(fn)
             n = 0
